@@ -19,7 +19,8 @@ LEVEL_TEXT = ('For every golden source and 8 generated programs, every configura
               'default over 34 report options plus carrier (argv, ASCMD, key file), working directory, -o path and LANG/LC_ALL is run on the rebuilt '
               'assembler; the code file must be byte-identical to the default run and the exit status equal; repeated runs must reproduce listing, '
               'MAP and share files byte for byte apart from the date/time stamp.'
-              ' One generated program executes 250 sequential INCLUDEs per pass.')
+              ' One generated program executes 250 sequential INCLUDEs per pass.'
+              ' Include directories added and removed again (+i), the list form of -i and a key file line longer than 255 characters are deviations of their own.')
 LEVEL_NOTE = ('Trusted: the default-configuration run of the same binary as reference. -h/-SPLITBYTE only for sources without "\\{". '
               'Known finding listed in known_findings.txt for -SPLITBYTE with user FUNCTIONs if present.')
 RULE = 'configurations = subsets of size <=k of the deviation list; non-trivial = at least one deviation'
